@@ -61,6 +61,7 @@ def make_sets(ctx):
         # file names are data too: one set is named with the characters a shell pattern gives a meaning to
         sets.append(dict(files=[("a.xml", a), ("b.xml", b)] if i != 1 else [("a plant[rev2].xml", a), ("b*?.xml", b)], bad=None))
     sets.append(dict(files=[("only [a-z].xml", docs.simple_doc(rng, "urn:only"))], bad=None))
+    sets.append(dict(files=[("a.xml", docs.simple_doc(rng, "urn:via")), ("b.xml", docs.simple_doc(rng, "urn:via2", n_nodes=2))], bad=None, via="symlink"))
     sets.append(dict(files=[("a.xml", docs.simple_doc(rng, "urn:ok")), ("b.xml", docs.simple_doc(rng, "urn:badalias", bad="alias"))], bad="alias"))
     sets.append(dict(files=[("a.xml", docs.simple_doc(rng, "urn:badnode", bad="nodeid"))], bad="nodeid"))
     sets.append(dict(files=[("a.xml", docs.simple_doc(rng, "urn:ok2")), ("b.xml", "<UANodeSet><broken")], bad="xml"))
@@ -69,11 +70,18 @@ def make_sets(ctx):
 def run_case(ctx, work, s, k, edit_target=0, base=False):
     """one fault point of one document set: implementation run, then edit -> parse again"""
     d = os.path.join(work, "case"); shutil.rmtree(d, ignore_errors=True)
+    dp = d                                             # the spelling of the directory that the caller passes
+    if s.get("via") == "symlink":
+        # the files are reached through <link>/../case where <link> points into another directory: the path names the files only when the link is followed
+        for sub in ("store", "proj"): shutil.rmtree(os.path.join(work, sub), ignore_errors=True)
+        d = os.path.join(work, "store", "case"); os.makedirs(os.path.join(work, "store", "v1")); os.makedirs(os.path.join(work, "proj"))
+        os.symlink(os.path.join("..", "store", "v1"), os.path.join(work, "proj", "current"))
+        dp = os.path.join(work, "proj", "current", "..", "case")
     files = [(n, doc if isinstance(doc, str) else docs.render(doc, ctx.rng)) for n, doc in s["files"]]
     write_docs(d, files); names = [n for n, _ in files]
     before = snapshot(d)
     seen = []
-    out, trace, fired = parse_dir(d, names, k, observe=lambda: seen.append(snapshot(d)), base=base)
+    out, trace, fired = parse_dir(dp, names, k, observe=lambda: seen.append(snapshot(d)), base=base)
     after = snapshot(d)
     if seen and seen[0] != before: after = seen[0]          # what the directory looked like when the call returned / raised
     # edit the first file to another namespace and parse again, without faults
@@ -81,7 +89,7 @@ def run_case(ctx, work, s, k, edit_target=0, base=False):
     edited = docs.simple_doc(ctx.rng, "urn:edited", n_nodes=2)
     open(os.path.join(d, n0), "w", encoding="utf-8").write(docs.render(edited, ctx.rng))
     leftovers = [n for n in os.listdir(d) if n not in names]
-    out2, _, _ = parse_dir(d, names, None)
+    out2, _, _ = parse_dir(dp, names, None)
     # reference: the same edited set parsed in a clean directory
     d2 = os.path.join(work, "ref"); shutil.rmtree(d2, ignore_errors=True)
     write_docs(d2, [(n, open(os.path.join(d, n), encoding="utf-8").read()) for n in names])
